@@ -228,7 +228,10 @@ Reimp ==
 Mir ==
   /\ IsEvent("mir")
   /\ LET e == Rec[l] IN
-     Report(F(PosOf(e.o) = Mirror(pos), "HARNESS", "mirror twin out of step", [want |-> FenLine(Mirror(pos)), got |-> FenLine(PosOf(e.o))])
+     \* the twin is the same engine fed the colour-mirrored legal moves: if it is not the mirror, one of the two games
+     \* was not played by the rules (or an emitted move text did not read back as the move)
+     Report(F(PosOf(e.o) = Mirror(pos), "C02", "the colour-mirrored twin game is not the mirror of the game",
+              [want |-> FenLine(Mirror(pos)), got |-> FenLine(PosOf(e.o))])
             \cup F(e.o.sc = 0 - prev.sc, "C16", "mirrored position does not have the negated score",
                    [fen |-> FenLine(pos), sc |-> prev.sc, mirror |-> e.o.sc]))
   /\ UNCHANGED <<pos, prev, stk, recs, eng>> /\ l' = l + 1
@@ -298,6 +301,23 @@ States ==
                               ELSE LET p == CHOOSE p \in bad : TRUE IN << e.list[p[1]][1], e.list[p[1]][2], e.list[p[2]][1], e.list[p[2]][2] >>]))
   /\ UNCHANGED <<pos, prev, stk, recs, eng>> /\ l' = l + 1
 
+\* C17 over UCI: `position fen <text>` + `show` on the real binary; acc = a position was shown afterwards
+UciFen ==
+  /\ IsEvent("ufen")
+  /\ LET e == Rec[l]
+         cls == Classify(e.fen)
+     IN Report(
+          F(~e.died, "C17", "the engine died on a position fen command", [fen |-> Str(e.fen), class |-> cls])
+          \cup F(cls = "MustReject" => ~e.acc, "C17", "malformed FEN was accepted by the position command", [fen |-> Str(e.fen), shown |-> e.fl])
+          \cup (IF cls = "MustAccept" /\ ~e.died
+                THEN LET pp == Parse(e.fen) IN
+                     F(e.acc /\ Len(e.fl) >= 4 /\ e.fl[1] = FenFields(pp)[1] /\ e.fl[2] = FenFields(pp)[2] /\ e.fl[3] = FenFields(pp)[3]
+                       /\ e.fl[4] \in {FenFields(pp)[4], FenFields(Normalize(pp))[4]},
+                       "C17", "well-formed FEN was refused or shown as a different position by the position command",
+                       [fen |-> Str(e.fen), shown |-> e.fl])
+                ELSE {}))
+  /\ UNCHANGED <<pos, prev, stk, recs, eng>> /\ l' = l + 1
+
 \* C15: the board with the most generated moves a hill-climbing search over accepted FENs found
 Mob ==
   /\ IsEvent("mob")
@@ -310,7 +330,7 @@ Panic ==
   /\ Report(F(FALSE, "PANIC", "the engine panicked", [msg |-> Rec[l].msg, root |-> Rec[l].root]))
   /\ pos' = NoPos /\ prev' = NoObs /\ stk' = << >> /\ recs' = << >> /\ eng' = NoEng /\ l' = l + 1
 
-Next == New \/ Push \/ Pop \/ Query \/ Reimp \/ Mir \/ Var \/ PosMoves \/ States \/ Mob \/ Panic
+Next == New \/ Push \/ Pop \/ Query \/ Reimp \/ Mir \/ Var \/ PosMoves \/ States \/ UciFen \/ Mob \/ Panic
 Spec == Init /\ [][Next]_vars
 
 \* every event consumed = one state per event plus the initial state
